@@ -426,21 +426,15 @@ func (t *Task) Fail(msg interface{}) {
 // It is called both from Task, and from Process that implement cutom execution
 // schedule.
 func FinalizePaths(tempExecDir string, ips ...*FileIP) error {
+	outTempPaths := map[string]bool{}
 	for _, oip := range ips {
-		// Move paths for ports, to final destinations
-		if !oip.doStream {
-			tempPath := tempExecDir + "/" + oip.TempPath()
-			finPath := oip.Path()
-			Debug.Println("Moving OutIP path: ", tempPath, " -> ", finPath)
-			renameErr := os.Rename(tempPath, finPath)
-			if renameErr != nil {
-				return errors.New(fmt.Sprintf("Could not rename out-IP file %s to %s: %s", tempPath, finPath, renameErr))
-			}
-		}
+		outTempPaths[filepath.Join(tempExecDir, oip.TempPath())] = true
 	}
-	// For remaining paths in temporary execution dir, just move out of it
+	// For other paths than those of the out-IPs in the temporary execution dir,
+	// just move out of it. This is done before the out-IPs are moved, since
+	// the task counts as finished as soon as one of its out-IPs exists.
 	err := filepath.Walk(tempExecDir, func(tempPath string, fileInfo os.FileInfo, err error) error {
-		if !fileInfo.IsDir() {
+		if !fileInfo.IsDir() && !outTempPaths[tempPath] {
 			finPath := strings.Replace(tempPath, tempExecDir+"/", "", 1)
 			finPath = strings.Replace(finPath, FSRootPlaceHolder+"/", "/", 1)
 			finPath = replacePlaceholdersWithParentDirs(finPath)
@@ -461,6 +455,18 @@ func FinalizePaths(tempExecDir string, ips ...*FileIP) error {
 	})
 	if err != nil {
 		Error.Printf("Failed walking temporary execution directory %s: %v\n", tempExecDir, err)
+	}
+	for _, oip := range ips {
+		// Move paths for ports, to final destinations
+		if !oip.doStream {
+			tempPath := tempExecDir + "/" + oip.TempPath()
+			finPath := oip.Path()
+			Debug.Println("Moving OutIP path: ", tempPath, " -> ", finPath)
+			renameErr := os.Rename(tempPath, finPath)
+			if renameErr != nil {
+				return errors.New(fmt.Sprintf("Could not rename out-IP file %s to %s: %s", tempPath, finPath, renameErr))
+			}
+		}
 	}
 	// Remove temporary execution dir (but not for absolute paths, or current dir)
 	if tempExecDir != "" && tempExecDir != "." && tempExecDir[0] != '/' {
